@@ -220,6 +220,16 @@ def wildcard_table(prog: Program, ctx: Ctx, rule: str, *, importers: bool = Fals
         n_rows += 1
         ctx.ob(rule, f"wildcard|existing={old_kind}@{old_line}|star@{star_line}", got == want,
                f"`from pkg.a import *` on line {star_line} of pkg.b, existing member: {old_kind} on line {old_line}: members of pkg.b {got}; at run time {want}", where(xw))
+    # the star-imported module declares `__all__`: exactly the listed names are bound - none for an empty list (an empty `__all__` is still an `__all__`)
+    for all_ in (["y"], ["x", "_p"], []):
+        coll, pkg, a, b, _c = world()
+        a.attrs["exports"] = list(all_)
+        setm(b, "pkg/a/*", new("Alias", "pkg/a/*", "pkg.a", lineno=2, endlineno=2))
+        got = run_and_describe(coll, pkg, b)
+        want = {n_: ("Alias", f"pkg.a.{n_}", 2) for n_ in all_}
+        n_rows += 1
+        ctx.ob(rule, f"wildcard|source declares __all__ = {all_}", got == want,
+               f"`from pkg.a import *` in pkg.b where pkg.a has `__all__ = {all_}` (and defines x, y, _p): members of pkg.b {got}; at run time {want}", where(xw))
     # two wildcard imports in one module exposing the same name: the later statement rebinds it
     for line_a, line_c in ((1, 3), (3, 1)):
         coll, pkg, a, b, c = world()
